@@ -20,7 +20,7 @@ def real_models(tier, seed):
     from cassandra import cqltypes
     rng = random.Random(seed)
     fails, n, seen = [], 0, set()
-    kinds = [('Integer', columns.Integer, cqltypes.Int32Type, lambda: rng.randrange(-2 ** 31, 2 ** 31)), ('BigInt', columns.BigInt, cqltypes.LongType, lambda: rng.randrange(-2 ** 63, 2 ** 63)),
+    kinds = [('Integer', columns.Integer, cqltypes.Int32Type, lambda: rng.choice([0, rng.randrange(-2 ** 31, 2 ** 31)])), ('BigInt', columns.BigInt, cqltypes.LongType, lambda: rng.randrange(-2 ** 63, 2 ** 63)),
              ('Text', columns.Text, cqltypes.UTF8Type, lambda: rng.choice(['', 'a', 'é', 'key-%d' % rng.randrange(1000)])), ('UUID', columns.UUID, cqltypes.UUIDType, lambda: uuid.UUID(int=rng.getrandbits(128))),
              ('SmallInt', columns.SmallInt, cqltypes.ShortType, lambda: rng.randrange(-2 ** 15, 2 ** 15)), ('Boolean', columns.Boolean, cqltypes.BooleanType, lambda: rng.random() < 0.5)]
     sent = {}
